@@ -181,7 +181,6 @@ class Evaluator:
         self.calls += 1
         if self.calls > 5000:
             raise Undecided("call budget exhausted")
-        ps = param_names(fn)
         env = {}
         decs = decorators(fn)
         if cls is not None and "staticmethod" not in decs:
@@ -189,15 +188,30 @@ class Evaluator:
                 raise Undecided("unbound call of %s.%s" % (cls, fn.name))
             args = [bound] + args
         a = fn.args
+        ps = [x.arg for x in a.posonlyargs + a.args]           # positional parameters
+        kwonly = [x.arg for x in a.kwonlyargs]
         defaults = dict(zip(ps[len(ps) - len(a.defaults):], a.defaults)) if a.defaults else {}
         if len(args) > len(ps):
-            raise Undecided("too many arguments for %s" % fn.name)
+            if a.vararg is None:
+                raise Undecided("too many arguments for %s" % fn.name)
+            env[a.vararg.arg] = tuple(args[len(ps):])
+            args = args[:len(ps)]
+        elif a.vararg is not None:
+            env[a.vararg.arg] = ()
         for p, v in zip(ps, args):
             env[p] = v
+        extra = {}
         for k, v in kwargs.items():
-            if k not in ps:
+            if k in ps or k in kwonly:
+                if k in env:
+                    raise Raised("TypeError")   # the same parameter given twice
+                env[k] = v
+            elif a.kwarg is not None:
+                extra[k] = v
+            else:
                 raise Undecided("unknown keyword %s for %s" % (k, fn.name))
-            env[k] = v
+        if a.kwarg is not None:
+            env[a.kwarg.arg] = extra
         for p in ps:
             if p not in env:
                 if p in defaults:
